@@ -251,8 +251,23 @@ func sizeClass(n int) string {
 		return "1K-2K"
 	case n <= 4096:
 		return "2K-4K"
+	case n < 32000:
+		return ">4K"
+	case n <= 66000:
+		return "32K-64K"
 	}
-	return ">4K"
+	return ">64K"
+}
+
+// hugeSizes: "any number", "any length" - sizes around the powers of two where buffers and
+// line scanners of the usual libraries have their limits (bufio.Scanner: 64 KiB)
+var hugeSizes = []int{32767, 32768, 32769, 65535, 65536, 65537, 70000, 131072, 131073, 300000, 1 << 20}
+
+func pickSize(t *tape.Tape, from int) int {
+	if t.Chance(1, 12) {
+		return hugeSizes[t.Intn(len(hugeSizes))]
+	}
+	return padSizes[from+t.Intn(len(padSizes)-from)]
 }
 
 var padSizes = []int{0, 1, 2, 5, 40, 500, 1000, 1023, 1024, 1025, 1500, 2040, 2047, 2048, 2049, 2100, 3000, 5000}
@@ -262,6 +277,18 @@ var padSizes = []int{0, 1, 2, 5, 40, 500, 1000, 1023, 1024, 1025, 1500, 2040, 20
 func padding(t *tape.Tape, n int) string {
 	var sb strings.Builder
 	sb.WriteString("\n")
+	if n > 20000 && t.Chance(2, 3) {
+		// volume on ONE physical line: a comment line or a line of blanks/tabs of n bytes
+		// (a run of blanks inside a line is consumed one character at a time with a growing
+		// line buffer - quadratic, 3.5 s for 100 KB on the unchanged tree; that is speed, not
+		// the parse result, so such runs are kept below 70000 bytes)
+		if t.Chance(1, 2) || n > 70000 {
+			sb.WriteString("#" + strings.Repeat("c", n) + "\n")
+		} else {
+			sb.WriteString(strings.Repeat([]string{" ", "\t", " \t"}[t.Intn(3)], n) + "\n")
+		}
+		return sb.String()
+	}
 	for sb.Len() < n {
 		switch t.Pick(2, 3, 2) {
 		case 0:
@@ -407,13 +434,13 @@ func (c *c16Check) Run(seed, run uint64, rec []uint32, st Stats, only *Viol) []V
 			}
 		}
 		s.Calibrated++
-		n := padSizes[t.Intn(len(padSizes))]
+		n := pickSize(t, 0)
 		pad := padding(t, n)
 		variant, want = apply(pad), base
 		label = fmt.Sprintf("%s pad=%d at=%d", name, len(pad), pos)
 		s.BySize["pad"+sizeClass(len(pad))]++
 	case "token":
-		n := padSizes[2+t.Intn(len(padSizes)-2)]
+		n := pickSize(t, 2)
 		unit := "q"
 		unitKind := t.Pick(4, 1, 1, 1, 1)
 		// optional filler so that the token straddles a multiple of 1024
@@ -461,6 +488,10 @@ func (c *c16Check) Run(seed, run uint64, rec []uint32, st Stats, only *Viol) []V
 		variant = fill + strings.Replace(tmpl, "@", long, -1)
 		label = fmt.Sprintf("%s len=%d fill=%d unit=%q", tokKind, len(long), len(fill), unit)
 		s.BySize["tok"+sizeClass(n)]++
+	}
+	if os.Getenv("VERIF_C16_DEBUG") != "" {
+		fmt.Fprintf(os.Stderr, "C16 run %d: %s %s (%d bytes)\n", run, kind, label, len(variant))
+		os.WriteFile(os.Getenv("VERIF_C16_DEBUG"), []byte(variant), 0o644)
 	}
 	s.Variants++
 	s.BySize["total"+sizeClass(len(variant))]++
